@@ -1,5 +1,224 @@
-import Tahoe.Web.Range
+import Tahoe.Web.Lemmas
+/-! C40 — Web API byte-range downloads follow RFC 7233 (property theorems; helper lemmas are in
+`Tahoe/Web/Lemmas.lean`, the grammar used in the statements in `Tahoe/Web/Grammar.lean`).
+
+`render .fixed` is the model of `FileDownloader.render` with fixes/C40-range-edges.diff applied;
+`render .asIs` is the code as it is, for which two counterexamples are proved below. -/
 namespace Tahoe.C40
 open Tahoe.Web
-theorem placeholder : True := trivial
+
+/-- `bytes=f-l` with `f ≤ l` and `f < size`: 206 with exactly `file[f .. min(l, size-1)]`, the matching
+Content-Range and Content-Length = |body|; HEAD: same status and headers, no body. -/
+theorem closed_range_206 (file : Bytes) (isHead : Bool) (f l : Num) (hf : f ≠ []) (hl : l ≠ [])
+    (hle : numVal f ≤ numVal l) (hsat : numVal f < file.length) :
+    let last := min (numVal l) (file.length - 1)
+    render .fixed file isHead (some (hdrOf (.range f l))) =
+      ⟨206, some ((numVal f : Int), (last : Int), file.length), ((last + 1 - numVal f : Nat) : Int),
+        if isHead then [] else slice file (numVal f) last⟩
+    ∧ (slice file (numVal f) last).length = last + 1 - numVal f := by
+  intro last
+  constructor
+  · simp only [render, parseRangeHeader_single, parseRange_range _ _ f l hf hl]
+    have h1 : ¬ ((numVal l : Int) < numVal f) := by omega
+    have h2 : ¬ ((numVal f : Int) ≥ (file.length : Int)) := by omega
+    have e1 : max (0 : Int) (numVal f) = numVal f := by omega
+    have e2 : min ((file.length : Int) - 1) (numVal l) = (last : Int) := by omega
+    have e3 : ((last : Int) - (numVal f : Int) + 1) = ((last + 1 - numVal f : Nat) : Int) := by omega
+    simp [hdrOf, h1, h2, e1, e2, e3, nodeRead, slice]
+  · simp only [slice, List.length_take, List.length_drop]; omega
+
+example : render .fixed [10, 11, 12, 13, 14] false (some "bytes=1-3".toList) = ⟨206, some (1, 3, 5), 3, [11, 12, 13]⟩ := by decide
+example : render .fixed [10, 11, 12, 13, 14] false (some "bytes=03-99".toList) = ⟨206, some (3, 4, 5), 2, [13, 14]⟩ := by decide
+
+/-- `bytes=f-` with `f < size`: 206 with `file[f .. size-1]`. -/
+theorem open_range_206 (file : Bytes) (isHead : Bool) (f : Num) (hf : f ≠ []) (hsat : numVal f < file.length) :
+    render .fixed file isHead (some (hdrOf (.openEnded f))) =
+      ⟨206, some ((numVal f : Int), ((file.length - 1 : Nat) : Int), file.length), ((file.length - numVal f : Nat) : Int),
+        if isHead then [] else slice file (numVal f) (file.length - 1)⟩
+    ∧ (slice file (numVal f) (file.length - 1)).length = file.length - numVal f := by
+  constructor
+  · simp only [render, parseRangeHeader_single, parseRange_open _ _ f hf]
+    have h2 : ¬ ((numVal f : Int) ≥ (file.length : Int)) := by omega
+    have e1 : max (0 : Int) (numVal f) = numVal f := by omega
+    have e2 : min ((file.length : Int) - 1) (max (numVal f : Int) ((file.length : Int) - 1)) = ((file.length - 1 : Nat) : Int) := by omega
+    have e3 : (((file.length - 1 : Nat) : Int) - (numVal f : Int) + 1) = ((file.length - numVal f : Nat) : Int) := by omega
+    have e4 : file.length - 1 + 1 - numVal f = file.length - numVal f := by omega
+    simp [hdrOf, h2, e1, e2, e3, e4, nodeRead, slice]
+  · simp only [slice, List.length_take, List.length_drop]; omega
+
+example : render .fixed [10, 11, 12, 13, 14] false (some "bytes=2-".toList) = ⟨206, some (2, 4, 5), 3, [12, 13, 14]⟩ := by decide
+
+/-- `bytes=-n` with `n > 0` on a non-empty file: 206 with the last `n` bytes (the whole file if it is shorter). -/
+theorem suffix_range_206 (file : Bytes) (isHead : Bool) (n : Num) (hn : n ≠ []) (hpos : 0 < numVal n)
+    (hne : 0 < file.length) :
+    let first := file.length - numVal n
+    render .fixed file isHead (some (hdrOf (.suffix n))) =
+      ⟨206, some ((first : Int), ((file.length - 1 : Nat) : Int), file.length), ((file.length - first : Nat) : Int),
+        if isHead then [] else slice file first (file.length - 1)⟩
+    ∧ (slice file first (file.length - 1)).length = min (numVal n) file.length := by
+  intro first
+  constructor
+  · simp only [render, parseRangeHeader_single, parseRange_suffix _ _ n hn]
+    have h1 : ¬ ((file.length : Int) - 1 < max 0 ((file.length : Int) - numVal n)) := by omega
+    have h2 : ¬ (max (0 : Int) ((file.length : Int) - numVal n) ≥ (file.length : Int)) := by omega
+    have e1 : max (0 : Int) (max 0 ((file.length : Int) - numVal n)) = (first : Int) := by omega
+    have e2 : min ((file.length : Int) - 1) ((file.length : Int) - 1) = ((file.length - 1 : Nat) : Int) := by omega
+    have e3 : (((file.length - 1 : Nat) : Int) - (first : Int) + 1) = ((file.length - first : Nat) : Int) := by omega
+    have e4 : file.length - 1 + 1 - first = file.length - first := by omega
+    simp [hdrOf, h1, h2, e1, e2, e3, e4, nodeRead, slice]
+  · simp only [slice, List.length_take, List.length_drop]; omega
+
+example : render .fixed [10, 11, 12, 13, 14] false (some "bytes=-2".toList) = ⟨206, some (3, 4, 5), 2, [13, 14]⟩ := by decide
+example : render .fixed [10, 11, 12] true (some "bytes=-200".toList) = ⟨206, some (0, 2, 3), 3, []⟩ := by decide
+
+/-- a range that starts at or beyond the end (`bytes=f-l`, `f ≤ l`, or `bytes=f-`, with `f ≥ size`): 416. -/
+theorem beyond_end_416 (file : Bytes) (isHead : Bool) (f : Num) (hf : f ≠ []) (hbeyond : file.length ≤ numVal f) :
+    (render .fixed file isHead (some (hdrOf (.openEnded f)))).status = 416
+    ∧ ∀ l : Num, l ≠ [] → numVal f ≤ numVal l →
+        (render .fixed file isHead (some (hdrOf (.range f l)))).status = 416 := by
+  constructor
+  · simp only [render, parseRangeHeader_single, parseRange_open _ _ f hf]
+    have h2 : ((numVal f : Int) ≥ (file.length : Int)) := by omega
+    simp [hdrOf, h2]
+  · intro l hl hle
+    simp only [render, parseRangeHeader_single, parseRange_range _ _ f l hf hl]
+    have h1 : ¬ ((numVal l : Int) < numVal f) := by omega
+    have h2 : ((numVal f : Int) ≥ (file.length : Int)) := by omega
+    simp [hdrOf, h1, h2]
+
+example : (render .fixed [10, 11, 12] false (some "bytes=3-".toList)).status = 416
+    ∧ (render .fixed [] false (some "bytes=0-".toList)).status = 416
+    ∧ (render .fixed [10, 11, 12] true (some "bytes=7-9".toList)).status = 416 := by decide
+
+/-- whatever `parse_range_header` rejects is answered with the full file -/
+theorem unparsed_full (file : Bytes) (isHead : Bool) (h : Str)
+    (hp : parseRangeHeader .fixed file.length h = none) :
+    render .fixed file isHead (some h) = fullResp file isHead := by
+  simp only [render, hp, fullResp, nodeRead, List.drop_zero]
+  split <;> rfl
+
+/-- `bytes=f-l` with `l < f` (an invalid byte-range-spec): ignored, full 200 -/
+theorem inverted_range_full (file : Bytes) (isHead : Bool) (f l : Num) (hf : f ≠ []) (hl : l ≠ [])
+    (hlt : numVal l < numVal f) :
+    render .fixed file isHead (some (hdrOf (.range f l))) = fullResp file isHead := by
+  apply unparsed_full
+  rw [parseRangeHeader_single, parseRange_range _ _ f l hf hl]
+  have : ((numVal l : Int) < numVal f) := by omega
+  simp [this]
+
+/-- a unit other than `bytes`: ignored, full 200 -/
+theorem unknown_unit_full (file : Bytes) (isHead : Bool) (units rest : Str)
+    (hu : units ≠ "bytes".toList) (hne : ∀ x ∈ units, (x == '=') = false) :
+    render .fixed file isHead (some (units ++ '=' :: rest)) = fullResp file isHead := by
+  apply unparsed_full
+  simp only [parseRangeHeader, splitOnce_append _ _ _ hne]
+  simp
+  intro h
+  exact absurd (h.trans (by decide)) hu
+
+/-- no `=` at all: ignored, full 200 -/
+theorem no_equals_full (file : Bytes) (isHead : Bool) (h : Str) (hne : splitOnce '=' h = none) :
+    render .fixed file isHead (some h) = fullResp file isHead := by
+  apply unparsed_full
+  simp [parseRangeHeader, hne]
+
+example : render .fixed [10, 11] false (some "bytes=1-0".toList) = fullResp [10, 11] false
+    ∧ render .fixed [10, 11] false (some "bits=0-1".toList) = fullResp [10, 11] false
+    ∧ render .fixed [10, 11] false (some "bytes=abc".toList) = fullResp [10, 11] false
+    ∧ render .fixed [10, 11] false (some "bytes".toList) = fullResp [10, 11] false
+    ∧ render .fixed [10, 11] false none = fullResp [10, 11] false := by decide
+
+/-- recorded reading (DESIGN C40): a suffix range of length 0, or any suffix range on an empty file,
+is ignored (full 200) — never a 206 -/
+theorem suffix_zero_or_empty_full (file : Bytes) (isHead : Bool) (n : Num) (hn : n ≠ [])
+    (h0 : numVal n = 0 ∨ file.length = 0) :
+    render .fixed file isHead (some (hdrOf (.suffix n))) = fullResp file isHead := by
+  apply unparsed_full
+  rw [parseRangeHeader_single, parseRange_suffix _ _ n hn]
+  have : ((file.length : Int) - 1 < max 0 ((file.length : Int) - numVal n)) := by omega
+  simp [this]
+
+example : render .fixed [] false (some "bytes=-5".toList) = fullResp [] false := by decide
+
+/-- HEAD returns the same status and headers as GET, and no body — for every header, both variants -/
+theorem head_same_headers_no_body (v : Variant) (file : Bytes) (hdr : Option Str) :
+    let g := render v file false hdr
+    let h := render v file true hdr
+    h.status = g.status ∧ h.contentRange = g.contentRange ∧ h.contentLength = g.contentLength ∧ h.body = [] := by
+  simp only [render]
+  cases hdr with
+  | none => simp
+  | some h =>
+    simp only
+    split
+    · simp
+    · split
+      · simp
+      · simp
+      · split <;> simp
+
+/-- every 206 of the repaired code is well formed, for *every* header string (grammar or not):
+`0 ≤ first ≤ last < size`, Content-Range names them, Content-Length = last-first+1 = |body| on GET
+and the body is `file[first..last]`. -/
+theorem every_206_wellformed (file : Bytes) (isHead : Bool) (hdr : Option Str)
+    (h206 : (render .fixed file isHead hdr).status = 206) :
+    ∃ first last : Nat, first ≤ last ∧ last < file.length ∧
+      render .fixed file isHead hdr =
+        ⟨206, some ((first : Int), (last : Int), file.length), ((last + 1 - first : Nat) : Int),
+          if isHead then [] else slice file first last⟩ := by
+  cases hdr with
+  | none => simp [render] at h206
+  | some h =>
+    simp only [render] at h206 ⊢
+    by_cases he : h.isEmpty
+    · simp [he] at h206
+    · simp only [he, Bool.false_eq_true, ↓reduceIte] at h206 ⊢
+      cases hp : parseRangeHeader .fixed file.length h with
+      | none => simp [hp] at h206
+      | some l =>
+        cases l with
+        | nil => simp [hp] at h206
+        | cons p ps =>
+          obtain ⟨a, b⟩ := p
+          obtain ⟨r, hr⟩ := parseRangeHeader_head _ _ _ _ _ hp
+          obtain ⟨h0, hab⟩ := parseRange_fixed_bounds _ _ _ _ hr
+          simp only [hp] at h206 ⊢
+          by_cases hge : a ≥ (file.length : Int)
+          · simp [hge] at h206
+          · simp only [hge, ↓reduceIte]
+            refine ⟨a.toNat, (min ((file.length : Int) - 1) b).toNat, by omega, by omega, ?_⟩
+            have e1 : max (0 : Int) a = (a.toNat : Int) := by omega
+            have e2 : ((min ((file.length : Int) - 1) b).toNat : Int) = min ((file.length : Int) - 1) b := by omega
+            have e3 : min ((file.length : Int) - 1) b - (a.toNat : Int) + 1
+                = (((min ((file.length : Int) - 1) b).toNat + 1 - a.toNat : Nat) : Int) := by omega
+            have e4 : (max a 0).toNat = a.toNat := by omega
+            rw [e1, e2, e3]
+            simp [nodeRead, slice, e4]
+
+example : (render .fixed [10, 11, 12] false (some "bytes= +0_1 - 1_0 , 7-".toList)) = ⟨206, some (1, 2, 3), 2, [11, 12]⟩ := by decide
+
+/-- multi-range sets: the answer is the answer to the first range alone, provided every later
+range is one that `parse_range` accepts (otherwise the whole header is ignored) -/
+theorem multi_range_first_only (file : Bytes) (isHead : Bool) (s : Spec) (rest : List Spec)
+    (hrest : ∀ t ∈ rest, parseRange .fixed file.length t.str ≠ none) :
+    render .fixed file isHead (some (hdrOfSet s rest)) = render .fixed file isHead (some (hdrOf s)) := by
+  obtain ⟨ys, hys⟩ := parseRangeHeader_set .fixed file.length s rest hrest
+  have e1 : (hdrOfSet s rest).isEmpty = false := by simp [hdrOfSet]
+  have e2 : (hdrOf s).isEmpty = false := by simp [hdrOf]
+  simp only [render, e1, e2, hys, parseRangeHeader_single]
+  cases parseRange .fixed file.length s.str <;> simp
+
+example : render .fixed [10, 11, 12, 13] false (some (hdrOfSet (.range [1] [2]) [.suffix [1], .openEnded [9]]))
+    = ⟨206, some (1, 2, 4), 2, [11, 12]⟩ := by decide
+
+/-- the code as it is: a suffix range on an empty file yields a 206 whose Content-Range is
+`bytes 0--1/0` (DESIGN §3 probe) -/
+theorem asIs_suffix_on_empty_counterexample :
+    render .asIs [] false (some "bytes=-5".toList) = ⟨206, some (0, -1, 0), 0, []⟩ := by decide
+
+/-- the code as it is: an open-ended range that starts exactly at the end is answered with the full
+file instead of 416 -/
+theorem asIs_open_range_at_end_counterexample :
+    render .asIs [10, 11, 12] false (some "bytes=3-".toList) = ⟨200, none, 3, [10, 11, 12]⟩ := by decide
+
 end Tahoe.C40
